@@ -11,6 +11,10 @@
 //   mini and micro parse the C++ bytes to the same content (CCT) ; a Message built with each codec's own
 //   construction API from that content serialises to the same bytes; the C++ parser accepts those bytes
 //   and sees the same content; each codec's advertised size equals the byte count.
+//   Gateways, both directions (stream of three frames: Message 0, Message 1, Message 0): the C++ MessageIOGateway, the C
+//   mini gateway and the C micro gateway SEND the same byte stream; each of them RECEIVES that stream, cut into
+//   arbitrary segments (1 byte .. more than the C++ gateway's 2048-byte scratch buffer), back into the same three
+//   Messages.  `pad:R:NAME:SIZE` steers FlattenedSize() so that frames straddle the scratch-buffer boundary.
 #include <stdio.h>
 #include <stdlib.h>
 #include <string.h>
@@ -29,6 +33,8 @@
 #include "lang/c/minimessage/MiniMessageGateway.h"
 #include "lang/c/micromessage/MicroMessageGateway.h"
 #include "iogateway/MessageIOGateway.h"
+#include "iogateway/AbstractGatewayMessageReceiver.h"
+#include "dataio/DataIO.h"
 
 using namespace muscle;
 
@@ -460,6 +466,205 @@ static bool c_representable(const CMsg & t)
    return true;
 }
 
+
+// ------------------------------------------------------------------ gateways: send and receive over a segmenting DataIO
+static uint32 g_seg;   // LCG state for segment sizes (seeded per case from the case text; the model does not see it)
+static uint32 seg_next()
+{
+   g_seg = (uint32)((((uint64) g_seg) * 1103515245ULL + 12345ULL) & 0x7fffffffULL);
+   static const uint32 tab[12] = {1, 7, 8, 9, 100, 500, 2040, 2047, 2048, 2049, 4096, 5000};
+   const uint32 r = g_seg >> 12;
+   return ((r & 3) == 0) ? (1 + ((r >> 2) % 4100)) : tab[(r >> 2) % 12];
+}
+
+// a stream DataIO that hands out / accepts the bytes in segments of seg_next() bytes
+class ChunkIO : public DataIO
+{
+public:
+   ChunkIO() : _pos(0), _budget(0) {}
+   virtual io_status_t Read(void * buffer, uint32 size)
+   {
+      if (_budget == 0) {_budget = seg_next(); return io_status_t(0);}    // "no more data right now": DoInput returns, the caller calls again
+      uint32 n = (uint32)(_in.size()-_pos);
+      if (n > size) n = size;
+      if (n > _budget) n = _budget;
+      if (n == 0) return io_status_t(0);
+      memcpy(buffer, &_in[_pos], n); _pos += n; _budget -= n;
+      return io_status_t((int32) n);
+   }
+   virtual io_status_t Write(const void * buffer, uint32 size)
+   {
+      uint32 n = seg_next(); if (n > size) n = size;
+      _out.insert(_out.end(), (const uint8 *) buffer, ((const uint8 *) buffer)+n);
+      return io_status_t((int32) n);
+   }
+   virtual void FlushOutput() {}
+   virtual void Shutdown() {}
+   virtual const ConstSocketRef & GetReadSelectSocket()  const {return GetNullSocket();}
+   virtual const ConstSocketRef & GetWriteSelectSocket() const {return GetNullSocket();}
+   bool exhausted() const {return _pos >= _in.size();}
+   std::vector<uint8> _in, _out;
+   size_t _pos; uint32 _budget;
+};
+
+struct SegCursor {const std::vector<uint8> * v; size_t pos;};
+static int32 seg_recv(uint8 * buf, uint32 numBytes, void * arg)
+{
+   SegCursor * c = (SegCursor *) arg;
+   uint32 n = (uint32)(c->v->size()-c->pos);
+   if (n > numBytes) n = numBytes;
+   const uint32 s = seg_next(); if (n > s) n = s;
+   if (n) memcpy(buf, &(*c->v)[c->pos], n);
+   c->pos += n;
+   return (int32) n;
+}
+static int32 seg_send(const uint8 * buf, uint32 numBytes, void * arg)
+{
+   uint32 n = seg_next(); if (n > numBytes) n = numBytes;
+   std::vector<uint8> * v = (std::vector<uint8> *) arg;
+   v->insert(v->end(), buf, buf+n);
+   return (int32) n;
+}
+
+// msgs: the Messages of the stream, in order; ccts/flats: their reference content text and flattened bytes
+static void gateway_leg(int k, const std::vector<const Message *> & msgs, const std::vector<const CMsg *> & trees,
+                        const std::vector<std::string> & ccts, const std::vector< std::vector<uint8> > & flats,
+                        bool c_ok, std::ostringstream & out, std::ostringstream & orc, bool print_stream)
+{
+   // ---- the reference stream: frame after frame, as CallFlattenHeaderAndMessage builds them
+   std::vector<uint8> ref;
+   {
+      MessageIOGateway gw;
+      for (size_t i=0; i<msgs.size(); i++)
+      {
+         ByteBufferRef fb = gw.CallFlattenHeaderAndMessage(GetMessageFromPool(*msgs[i]));
+         if (fb() == NULL) {orc << k << " ORACLE FAIL C++ gateway: FlattenHeaderAndMessage failed\n"; return;}
+         ref.insert(ref.end(), fb()->GetBuffer(), fb()->GetBuffer()+fb()->GetNumBytes());
+      }
+   }
+   if (print_stream) out << k << " GS " << hex(ref.empty() ? (const uint8 *) "" : &ref[0], ref.size()) << "\n";
+
+   // ---- C++ gateway SENDS through a DataIO that accepts the bytes in segments
+   {
+      MessageIOGateway gw;
+      ChunkIO * io = new ChunkIO; DataIORef ioRef(io);
+      gw.SetDataIO(ioRef);
+      for (size_t i=0; i<msgs.size(); i++) (void) gw.AddOutgoingMessage(GetMessageFromPool(*msgs[i]));
+      for (int guard=0; (guard < 100000) && gw.HasBytesToOutput(); guard++) if (gw.DoOutput(seg_next()).IsError()) break;
+      if (io->_out != ref) orc << k << " ORACLE FAIL C++ gateway: the stream DoOutput writes differs from its frames\n";
+   }
+   // ---- C++ gateway RECEIVES the stream in segments
+   {
+      MessageIOGateway gw;
+      ChunkIO * io = new ChunkIO; DataIORef ioRef(io);
+      io->_in = ref;
+      gw.SetDataIO(ioRef);
+      QueueGatewayMessageReceiver q;
+      size_t got = 0; bool bad = false; int idle = 0;
+      for (int guard=0; (guard < 200000) && !bad; guard++)
+      {
+         const io_status_t r = gw.DoInput(q, seg_next());
+         MessageRef next;
+         while(q.RemoveHead(next).IsOK())
+         {
+            if ((got >= msgs.size())||(next() == NULL)) {orc << k << " ORACLE FAIL C++ gateway: received more Messages than were sent\n"; bad = true; break;}
+            CMsg t; std::string s, w;
+            if (!tree_of_cpp(*next(), t, w)) {orc << k << " ORACLE FAIL C++ gateway: cannot read a received Message\n"; bad = true; break;}
+            cct(t, s);
+            if (s != ccts[got]) {orc << k << " ORACLE FAIL C++ gateway: frame #" << got << " of the stream was received as different content\n"; bad = true; break;}
+            got++;
+         }
+         if (bad) break;
+         if (r.IsError()) {orc << k << " ORACLE FAIL C++ gateway: DoInput rejects a well-formed stream after " << got << " of " << msgs.size() << " Messages (sizes"; for (size_t i=0; i<flats.size(); i++) orc << " " << flats[i].size(); orc << ")\n"; bad = true; break;}
+         if (io->exhausted() && (r.GetByteCount() == 0)) {if (++idle >= 3) break;} else idle = 0;
+      }
+      if (!bad && (got != msgs.size())) orc << k << " ORACLE FAIL C++ gateway: only " << got << " of " << msgs.size() << " Messages came out of the stream\n";
+   }
+   if (!c_ok) return;
+
+   // ---- mini gateway: SEND
+   std::vector<MMessage *> mms;
+   bool built = true;
+   for (size_t i=0; i<trees.size(); i++) {MMessage * m = mini_of_tree(*trees[i]); if (m == NULL) built = false; mms.push_back(m);}
+   if (built)
+   {
+      MMessageGateway * mg = MGAllocMessageGateway();
+      std::vector<uint8> stream;
+      bool ok = (mg != NULL);
+      for (size_t i=0; ok && i<mms.size(); i++) ok = (MGAddOutgoingMessage(mg, mms[i]) == CB_NO_ERROR);
+      for (int guard=0; ok && (guard < 100000) && MGHasBytesToOutput(mg); guard++) if (MGDoOutput(mg, seg_next(), seg_send, &stream) < 0) ok = false;
+      if (!ok) orc << k << " ORACLE FAIL mini gateway: could not send the Messages\n";
+      else if (stream != ref) orc << k << " ORACLE FAIL mini gateway: stream differs from the C++ gateway's\n";
+      if (mg) MGFreeMessageGateway(mg);
+   }
+   else orc << k << " ORACLE FAIL mini: could not build the Messages with the MMPut API\n";
+   for (size_t i=0; i<mms.size(); i++) if (mms[i]) MMFreeMessage(mms[i]);
+
+   // ---- mini gateway: RECEIVE the C++ stream in segments
+   {
+      MMessageGateway * mg = MGAllocMessageGateway();
+      SegCursor cur = {&ref, 0};
+      size_t got = 0; bool bad = (mg == NULL);
+      for (int guard=0; (guard < 200000) && !bad; guard++)
+      {
+         MMessage * m = NULL;
+         const int32 r = MGDoInput(mg, seg_next(), seg_recv, &cur, &m);
+         if (m)
+         {
+            const uint32 fs = MMGetFlattenedSize(m);
+            std::vector<uint8> b(fs ? fs : 1); MMFlattenMessage(m, &b[0]);
+            if ((got >= flats.size())||(fs != flats[got].size())||(memcmp(&b[0], &flats[got][0], fs) != 0)) {orc << k << " ORACLE FAIL mini gateway: frame #" << got << " of the C++ stream was received as a different Message\n"; bad = true;}
+            MMFreeMessage(m);
+            got++;
+         }
+         if (r < 0) {if (!bad) orc << k << " ORACLE FAIL mini gateway: MGDoInput rejects the C++ gateway's stream after " << got << " Messages\n"; bad = true;}
+         if ((cur.pos >= ref.size())&&(m == NULL)&&(r == 0)) break;
+      }
+      if (!bad && (got != flats.size())) orc << k << " ORACLE FAIL mini gateway: only " << got << " of " << flats.size() << " Messages came out of the C++ stream\n";
+      if (mg) MGFreeMessageGateway(mg);
+   }
+
+   // ---- micro gateway: SEND (one Message at a time: its output buffer holds one frame) and RECEIVE
+   {
+      size_t maxfs = 0; for (size_t i=0; i<flats.size(); i++) if (flats[i].size() > maxfs) maxfs = flats[i].size();
+      std::vector<uint8> inbuf(maxfs + 64), outbuf(maxfs + 128), stream;
+      UMessageGateway ug;
+      UGGatewayInitialize(&ug, &inbuf[0], (uint32) inbuf.size(), &outbuf[0], (uint32) outbuf.size());
+      bool ok = true;
+      for (size_t i=0; ok && i<trees.size(); i++)
+      {
+         std::string w;
+         UMessage um = UGGetOutgoingMessage(&ug, trees[i]->what);
+         ok = UMIsMessageValid(&um) && micro_fill(um, *trees[i], w, (uint32) maxfs + 64);
+         if (ok)
+         {
+            UGOutgoingMessagePrepared(&ug, &um);
+            for (int guard=0; (guard < 100000) && UGHasBytesToOutput(&ug); guard++) if (UGDoOutput(&ug, seg_next(), seg_send, &stream) < 0) {ok = false; break;}
+         }
+      }
+      if (!ok) orc << k << " ORACLE FAIL micro gateway: could not send the Messages\n";
+      else if (stream != ref) orc << k << " ORACLE FAIL micro gateway: stream differs from the C++ gateway's\n";
+
+      SegCursor cur = {&ref, 0};
+      size_t got = 0; bool bad = false;
+      for (int guard=0; (guard < 200000) && !bad; guard++)
+      {
+         UMessage um;
+         const int32 r = UGDoInput(&ug, seg_next(), seg_recv, &cur, &um);
+         const bool have = (UMIsMessageValid(&um) != 0);
+         if (have)
+         {
+            const uint32 fs = UMGetFlattenedSize(&um);
+            if ((got >= flats.size())||(fs != flats[got].size())||(memcmp(UMGetFlattenedBuffer(&um), &flats[got][0], fs) != 0)) {orc << k << " ORACLE FAIL micro gateway: frame #" << got << " of the C++ stream was received as a different Message\n"; bad = true;}
+            got++;
+         }
+         if (r < 0) {if (!bad) orc << k << " ORACLE FAIL micro gateway: UGDoInput rejects the C++ gateway's stream after " << got << " Messages\n"; bad = true;}
+         if ((cur.pos >= ref.size())&&(!have)&&(r == 0)) break;
+      }
+      if (!bad && (got != flats.size())) orc << k << " ORACLE FAIL micro gateway: only " << got << " of " << flats.size() << " Messages came out of the C++ stream\n";
+   }
+}
+
 static void run_case(int k, const std::string & head, const std::string & body)
 {
    std::ostringstream out, orc;
@@ -487,6 +692,21 @@ static void run_case(int k, const std::string & head, const std::string & body)
          else if ((c == "xn")&&(a.size() == 3)) (void) REG(1).RemoveName(FN(2));
          else if ((c == "rn")&&(a.size() == 4)) (void) REG(1).Rename(FN(2), FN(3));
          else if ((c == "cl")&&(a.size() == 2)) REG(1).Clear();
+         else if ((c == "pad")&&(a.size() == 4))
+         {
+            // add to field NAME one raw item of the length that makes FlattenedSize() equal to the target (if reachable)
+            Message & m = REG(1);
+            const long tl = strtol(a[3].c_str(), NULL, 10);
+            const uint32 target = (uint32) tl;
+            Message trial = m;
+            if ((tl >= 0)&&(tl <= (1L<<26))&&trial.AddFlat(FN(2), FlatCountableRef(GetByteBufferFromPool(0))).IsOK() && (trial.FlattenedSize() <= target))
+            {
+               const uint32 n = target - trial.FlattenedSize();
+               std::vector<uint8> pb(n ? n : 1);
+               for (uint32 i=0; i<n; i++) pb[i] = (uint8)(i*7+3);
+               (void) m.AddFlat(FN(2), FlatCountableRef(GetByteBufferFromPool(n, &pb[0])));
+            }
+         }
          else if ((c == "mf")&&(a.size() == 3)) (void) REG(1).MoveNameToFront(FN(2));
          else if ((c == "mb")&&(a.size() == 3)) (void) REG(1).MoveNameToBack(FN(2));
          else if ((c == "cn")&&(a.size() == 4)) {Message & m = REG(1); (void) m.CopyName(FN(2), m, FN(3));}
@@ -528,6 +748,22 @@ static void run_case(int k, const std::string & head, const std::string & body)
       {
          cct(ref, refcct);
          out << k << " CCT " << refcct << "\n";
+         {
+            // gateway leg: the stream Message 0, Message 1, Message 0
+            CMsg ref1; std::string w1, cct1;
+            const Message & m1 = regs[1];
+            if (tree_of_cpp(m1, ref1, w1))
+            {
+               cct(ref1, cct1);
+               const uint32 fs1 = m1.FlattenedSize(); std::vector<uint8> B1(fs1); m1.FlattenToBytes(&B1[0], fs1);
+               std::vector<const Message *> msgs; msgs.push_back(&m0); msgs.push_back(&m1); msgs.push_back(&m0);
+               std::vector<const CMsg *> trees; trees.push_back(&ref); trees.push_back(&ref1); trees.push_back(&ref);
+               std::vector<std::string> ccts; ccts.push_back(refcct); ccts.push_back(cct1); ccts.push_back(refcct);
+               std::vector< std::vector<uint8> > flats; flats.push_back(B); flats.push_back(B1); flats.push_back(B);
+               g_seg = 12345; for (size_t i=0; i<body.size(); i++) g_seg = (g_seg*31 + (uint8) body[i]) & 0x7fffffff;
+               gateway_leg(k, msgs, trees, ccts, flats, c_representable(ref) && c_representable(ref1), out, orc, head == "wg");
+            }
+         }
          if (c_representable(ref))
          {
             // ---------------- mini: parse the C++ bytes
